@@ -107,6 +107,8 @@ def _tree(draw, D, ctxk, depth):
 
 @st.composite
 def _case(draw):
+    if draw(st.integers(0, 60)) == 0:
+        return {"kind": "empty_composite", "rows": draw(st.integers(1, 5)), "shape": draw(st.sampled_from([[3], [1], [2, 2, 2]])), "seed": draw(st.integers(0, 1000))}
     if draw(st.integers(0, 24)) == 0:
         return {"kind": "named_inverse", "which": draw(st.sampled_from(["logit", "logit", "cauchy"])), "temp": draw(st.sampled_from([1.0, 0.5, 2.0])),
                 "eps": draw(st.sampled_from([1e-6, 1e-3, 1e-2, 0.1])), "seed": draw(st.integers(0, 10 ** 6))}
@@ -295,6 +297,25 @@ def run_case(case):
     # under the float32 default and converted with .double() (accumulators created with torch.zeros(...) would stay float32)
     twin = case["kind"] == "program" and case.get("double_twin")
     with dtype_mode(not twin):
+        if case["kind"] == "empty_composite":
+            # zero parts: the identity with one zero log-det PER EXAMPLE (bare, nested, inside an InverseTransform, on images)
+            from nflows import transforms as T
+            g_ = torch.Generator().manual_seed(case["seed"])
+            shape = [case["rows"]] + case["shape"]
+            x = torch.randn(shape, generator=g_, dtype=torch.float64)
+            m0 = T.CompositeTransform([])
+            for nm, mod in (("CompositeTransform([])", m0), ("InverseTransform(CompositeTransform([]))", T.InverseTransform(T.CompositeTransform([]))),
+                            ("CompositeTransform([CompositeTransform([])])", T.CompositeTransform([T.CompositeTransform([])]))):
+                for d, fn in (("forward", mod.forward), ("inverse", mod.inverse)):
+                    with torch.no_grad():
+                        y, ld = fn(x)
+                    if not torch.equal(y, x) or tuple(ld.shape) != (case["rows"],) or bool((ld != 0).any()) or ld.dtype != x.dtype:
+                        res.fail("composition_logdet", "CompositeTransform", "%s.%s on %s inputs returns log-det of shape %s dtype %s (want %s zeros)" % (
+                            nm, d, shape, tuple(ld.shape), ld.dtype, (case["rows"],)), direction=d)
+                        return res
+            res.labels.append("empty_composite")
+            res.nontrivial = True
+            return res
         if case["kind"] == "named_inverse":
             # the library's own InverseTransform subclasses: Logit(t, eps) is Sigmoid(t, eps) with the directions swapped,
             # CauchyCDFInverse is CauchyCDF swapped - bit for bit, for every constructor argument, tails [0, eps) included
@@ -307,7 +328,7 @@ def run_case(case):
                 wrapped, plain = NL.Logit(temperature=case["temp"], eps=case["eps"]), NL.Sigmoid(temperature=case["temp"], eps=case["eps"])
             else:
                 wrapped, plain = NL.CauchyCDFInverse(), NL.CauchyCDF()
-                u = u.clamp(1e-3, 1 - 1e-3)
+                u[2, 0], u[2, 1], u[0, 0], u[0, 1] = 1e-9, 1 - 1e-9, 1e-3, 1 - 1e-3       # tails as well (double precision)
             res.labels += ["named_inverse:" + case["which"]]
             res.nontrivial = True
             same = lambda a_, b_: a_.shape == b_.shape and bool(torch.allclose(a_, b_, rtol=0, atol=0, equal_nan=True))  # noqa
